@@ -27,6 +27,8 @@ func runC16(c *core.Ctx) {
 	c.RuleDoc("R16.3", "cursor stored on every paging path; stored value depends on old cursor or listing length")
 	c.RuleDoc("R16.4", "by-name listings sorted by construction")
 	c.RuleDoc("R16.5", "listing failure wrapped in *PathError")
+	c.RuleDoc("R16.10", "the cache's info memo holds the source's Stat of the full name only (= R10.3)")
+	c.RuleDoc("R16.11", "no file system handed out derives from a one-time route resolution (= R07.4)")
 	c.RuleDoc("R16.9", "the cursor of a paging ReadDir moves only for a page that is returned")
 	c.RuleDoc("R16.8", "the mount table matches names against mount points on path-element boundaries (listed siblings are Stat'ed in the file system that listed them)")
 	c.RuleDoc("R16.7", "the page end is computed without integer overflow")
@@ -69,6 +71,13 @@ func runC16(c *core.Ctx) {
 		// R16.8: the mount table resolves a name on element boundaries: a sibling whose name merely starts with a mount
 		// point's name ("lib64" next to the mount point "lib") is listed by the root but would be Stat'ed inside the mount
 		boundaryTests(c, p, "R16.8", "mount")
+		// R16.10 (= R10.3): the cache's info memo holds only what the source's Stat answered for the FULL name: an entry
+		// memoised under its base name makes a later listing disagree with Stat; R16.11 (= R07.4): no file system handed out
+		// derives from a one-time route resolution (mount points below it would drop out of its listings)
+		if sh := findCacheShape(p); sh != nil && sh.stat != nil {
+			c.WithAlias(map[string]string{"R10.3": "R16.10"}, func() { r10Memo(c, p, sh) })
+		}
+		c.WithAlias(map[string]string{"R07.4": "R16.11"}, func() { r07Routes(c, p, p.SrcFuncs(), "") })
 		// R16.6b: the in-memory store enumerates children by key prefix on element boundaries only
 		if fr := p.Method("mem", "fileRecord", "ReadDirNames"); fr != nil {
 			for _, v := range prefixTests(p, fr) {
@@ -82,6 +91,8 @@ func runC16(c *core.Ctx) {
 	c.Floor("R16.7", 2)
 	c.Floor("R16.8", 1)
 	c.Floor("R16.9", 2)
+	c.Floor("R16.10", 1)
+	c.Floor("R16.11", 8)
 	c.Floor("R16.1", 2)
 	c.Floor("R16.2", 2)
 	c.Floor("R16.3", 2)
